@@ -16,10 +16,12 @@ ASSUME_COMMON = [
 def run(prop, tier, seed, cfg, t0=None):
     t0 = t0 or time.time()
     catalogue.generate(BUILD)
-    backends = cfg.get("backends", ["f64", "dec"])
+    backends = list(cfg.get("backends", ["f64", "dec"]))
+    # checks about panics also run a build without debug assertions / overflow checks ("release semantics")
+    backends += [b + "-rel" for b in backends if "rel" in cfg.get("profiles", [])]
     build_drives(backends)
     with cf.ThreadPoolExecutor(max_workers=len(backends)) as ex:
-        futs = {b: ex.submit(run_drive, b, prop, tier, None, max(4, 16 // len(backends))) for b in backends}
+        futs = {b: ex.submit(run_drive, b, prop, tier, None, max(4, 16 // min(len(backends), 2))) for b in backends}
         docs = {b: f.result() for b, f in futs.items()}
     return report(prop, tier, seed, cfg, docs, t0)
 
